@@ -53,6 +53,23 @@ def PL.WF : PL → Prop
   | .cons h t => h.WF ∧ t.WF
 end
 
+/-- what the decoder guarantees about one operator and the model does not check: `return` and
+    `unreachable` carry no immediates, and only the three branch operators carry labels -/
+def opClean (o : Op) : Prop :=
+  ((o.name = "Return" ∨ o.name = "Unreachable") → o.args = []) ∧
+  (∀ n, Arg.ref "l" n ∈ o.args → o.name = "Br" ∨ o.name = "BrIf" ∨ o.name = "BrTable")
+
+mutual
+def PI.Clean : PI → Prop
+  | .op o _ => opClean o
+  | .blk _ _ b _ => b.Clean
+  | .if1 _ _ t _ => t.Clean
+  | .if2 _ _ t _ e _ => t.Clean ∧ e.Clean
+def PL.Clean : PL → Prop
+  | .nil => True
+  | .cons h t => h.Clean ∧ t.Clean
+end
+
 /-- what a non-structural operator does to the current frame: the instruction it appends (if the
     frame is reachable) and the new unreachable flag; `ids` = sequence ids of the enclosing frames,
     innermost first -/
